@@ -442,7 +442,9 @@ def rule_p8(repo):
     """Identifiers address positions: a negative component would be resolved by Python from the end
     of the list, so that `-1` passes the 'strictly earlier' test and names the last step."""
     res = RuleResult('C02.P8', 'a step identifier is resolved to a position only after negative components are refused', floor=2)
-    f = repo.func('kernel/proof.py', 'Proof.find_item')
+    from ..inline import inlined
+    f = inlined(repo.func('kernel/proof.py', 'Proof.find_item'), lambda h: any(
+        isinstance(x, ast.Subscript) and (path_of(x.value) or '').endswith('.items') for x in ast.walk(h.node)))[0]   # the descent may be a helper
     cfg = cfg_of(f.node)
     idp = f.params()[1]
     flow = flow_of(f.node)
